@@ -73,7 +73,7 @@ def run_schedules(spec, h, budget, scripts, stats=None, extra=None, nontrivial_f
     schema = spec["schema"]
     faults = [(tuple(k), c02.fault_from_json(f)) for k, f in spec.get("faults") or ()]
     rtree = Tree(schema, None, copy.deepcopy(spec["tree"]))
-    c02.install(rtree, faults)
+    c02.install(rtree, faults, for_reference=True)
     ex = Executor(schema, spec["doc"], RefProvider(rtree))
     op = ex.get_operation(spec["op"])
     root = schema["roots"][op["type"]]
